@@ -1045,6 +1045,25 @@ impl AutosarModelRaw {
     }
 }
 
+/// verification hook H1 (only compiled with `--cfg autosar_data_verif`): read-only dumps of the two index maps
+#[cfg(autosar_data_verif)]
+impl AutosarModel {
+    /// all entries of the `reference_origins` map (key = referenced path, value = referring elements), sorted by key
+    pub fn verif_reference_origin_keys(&self) -> Vec<(String, Vec<WeakElement>)> {
+        let model = self.0.read();
+        let mut result: Vec<(String, Vec<WeakElement>)> =
+            model.reference_origins.iter().map(|(k, v)| (k.clone(), v.clone())).collect();
+        result.sort_by(|a, b| a.0.cmp(&b.0));
+        result
+    }
+
+    /// all entries of the `identifiables` map in the map's own (insertion / swap_remove) order, including dead weak entries
+    pub fn verif_identifiables_raw(&self) -> Vec<(String, WeakElement)> {
+        let model = self.0.read();
+        model.identifiables.iter().map(|(k, v)| (k.clone(), v.clone())).collect()
+    }
+}
+
 impl std::fmt::Debug for AutosarModel {
     fn fmt(&self, f: &mut std::fmt::Formatter<'_>) -> std::fmt::Result {
         let model = self.0.read();
